@@ -8,6 +8,7 @@ import (
 	"time"
 
 	sdk "github.com/cosmos/cosmos-sdk/types"
+	gogotypes "github.com/cosmos/gogoproto/types"
 
 	base "github.com/regen-network/regen-ledger/x/ecocredit/v3/base/types/v1"
 	basket "github.com/regen-network/regen-ledger/x/ecocredit/v3/basket/types/v1"
@@ -43,6 +44,7 @@ var corpusScenarios = []corpusScenario{
 	{"buy-removed-order-again", false, corpusBuyRemovedOrderAgain},
 	{"origin-id-whitespace-replay", false, corpusOriginWhitespaceReplay},
 	{"take-amount-base-prefix", false, corpusTakeBasePrefix},
+	{"criteria-timestamp-range", false, corpusCriteriaTimestampRange},
 }
 
 func init() { QuickCounts["corpus"] = len(corpusScenarios) }
@@ -590,5 +592,46 @@ func corpusTakeBasePrefix(c Cfg) *Result {
 	g.Do(a.MsgBurnRegen(0, "010", "burn"), "burn 010 = 8 uregen")
 	g.Commit()
 	g.GenesisRT("after takes in base-0 spellings")
+	return g.Finish()
+}
+
+// ---- criteria-timestamp-range (C09) ---------------------------------------------------------------------
+// Basket date criteria carry a raw protobuf Timestamp / Duration; message validation bounds only the seconds from
+// below.  Values outside the protobuf JSON range (year > 9999, nanos outside [0, 1e9), nanos with the sign opposite
+// to the seconds of a duration) must not make the chain's own genesis export fail.
+
+func corpusCriteriaTimestampRange(c Cfg) *Result {
+	g := NewG(c, chain.Options{GenesisTime: T0})
+	a := g.App
+	g.Begin(g.now.Add(6 * time.Second))
+	cid, _, denom := g.corpusWorld()
+	n := 0
+	mk := func(ok bool, dc *basket.DateCriteria, what string) string {
+		n++
+		res := g.Do(a.MsgBasketCreate(2, fmt.Sprintf("RNG%d", n), "d", "C", []string{cid}, true, dc, g.basketFee(g.V())),
+			expectNote(ok, "C09", "criteria-outside-protobuf-range-accepted", "basket with "+what))
+		g.Commit()
+		g.GenesisRT("after a basket with " + what)
+		g.Begin(g.nextTime())
+		return respField(res, "basket_denom")
+	}
+	mk(false, &basket.DateCriteria{MinStartDate: &gogotypes.Timestamp{Seconds: 1500000000, Nanos: -1}}, "min_start_date nanos = -1")
+	mk(false, &basket.DateCriteria{MinStartDate: &gogotypes.Timestamp{Seconds: 1500000000, Nanos: 1000000000}}, "min_start_date nanos = 1e9")
+	mk(false, &basket.DateCriteria{MinStartDate: &gogotypes.Timestamp{Seconds: 253402300800}}, "min_start_date in the year 10000")
+	mk(false, &basket.DateCriteria{StartDateWindow: &gogotypes.Duration{Seconds: 86400, Nanos: -1}}, "window 1 day, nanos = -1")
+	mk(false, &basket.DateCriteria{StartDateWindow: &gogotypes.Duration{Seconds: 86400, Nanos: 1000000000}}, "window 1 day, nanos = 1e9")
+	mk(false, &basket.DateCriteria{StartDateWindow: &gogotypes.Duration{Seconds: 315576000001}}, "window above 10000 years")
+	b1 := mk(true, &basket.DateCriteria{MinStartDate: &gogotypes.Timestamp{Seconds: 253402300799, Nanos: 999999999}}, "the last valid min_start_date")
+	b2 := mk(true, &basket.DateCriteria{StartDateWindow: &gogotypes.Duration{Seconds: 315576000000, Nanos: 999999999}}, "the longest valid window")
+	b3 := mk(true, &basket.DateCriteria{MinStartDate: &gogotypes.Timestamp{Seconds: -2208992400, Nanos: 0}}, "the earliest valid min_start_date")
+	b4 := mk(true, &basket.DateCriteria{YearsInThePast: 4294967295}, "years_in_the_past = 2^32-1")
+	g.Do(a.MsgBasketUpdateDateCriteria(b3, &basket.DateCriteria{MinStartDate: &gogotypes.Timestamp{Seconds: 0, Nanos: -5}}),
+		expectNote(false, "C09", "criteria-outside-protobuf-range-accepted", "gov update to min_start_date nanos = -5"))
+	g.Do(a.MsgBasketPut(0, b1, chain.BasketCredit(denom, "1")), "put into the basket requiring year 9999 (rejected: too old)")
+	g.Do(a.MsgBasketPut(0, b2, chain.BasketCredit(denom, "1")), "put into the basket with a 10000-year window")
+	g.Do(a.MsgBasketPut(0, b3, chain.BasketCredit(denom, "1")), "put into the basket requiring 1900")
+	g.Do(a.MsgBasketPut(0, b4, chain.BasketCredit(denom, "1")), "put into the basket accepting 4294967295 years back")
+	g.Commit()
+	g.GenesisRT("after puts")
 	return g.Finish()
 }
